@@ -18,6 +18,6 @@ CONSTANTS
   EditMenu <- EditsNone
   PreMenu <- PreBy
   Objs <- AllObjs
-  MenuGuard <- GuardBias
+  MenuGuard <- GuardLong
 CONSTRAINT GenExport
 CHECK_DEADLOCK FALSE
